@@ -79,6 +79,9 @@ func (C10) Explore(x *kernel.Explorer, seed uint64) {
 				} else if nproc == 1 && r.Chance(1, 10) {
 					// maintenance window: tokens disabled (or removed), requests in between, enabled again
 					kind = "window"
+				} else if r.Chance(1, 10) {
+					// more than a day passes: the next read of a record refreshes its access time
+					kind = "age"
 				}
 				pool := c10Pool[tt]
 				plan.Ops = append(plan.Ops, kernel.Op{ID: id, Proc: p, Kind: kind,
@@ -392,6 +395,10 @@ func (C10) Run(t *testing.T, plan *kernel.Plan, keepLog bool) *kernel.Result {
 								Input:  c10In{Kind: "tok", Key: fmt.Sprintf("%s|%d|%s", client, tt, value), Value: value},
 								Output: out})
 						}
+					case "age":
+						time.Sleep(25 * time.Hour)
+						w.Probe("aged-a-day")
+						w.EndOp(proc, "aged")
 					case "window":
 						// While its record is disabled or removed a token is an unknown token: the owner gets the token
 						// itself back, without an error. (Single worker: nobody else is surprised by the window.)
